@@ -154,7 +154,17 @@ fn starve(p: &Params, seed: u64) -> HistResult {
                 h.push_id(id, How::Back);
             }
             victim = v;
-            refill = true;
+            if h.rng.chance(1, 2) {
+                refill = true;
+            } else {
+                // the newest group holds one to three children that wake themselves on every
+                // poll and never finish: it uses up its per-poll budget in every call
+                for _ in 0..h.rng.range(1, 3) {
+                    let id = h.passive_fut();
+                    w.kids.borrow_mut()[id as usize].self_wake = u32::MAX;
+                    h.push_id(id, How::Back);
+                }
+            }
         }
         Kind::ForEach => {
             // unlimited for_each_concurrent keeps its futures in a FuturesUnordered
@@ -345,13 +355,39 @@ fn budget(p: &Params, seed: u64) -> HistResult {
             h.construct(kind, Ctor::New, n, 0, None);
         }
     }
+    // `ready_at`: everybody is queued by its push and pending, except the child at queue
+    // position 59..62 / 121..123, which is ready: the output of the child that is polled as the
+    // last one within the per-call budget (or the first one beyond it) must not get lost
+    let ready_at = if !kind.is_merge() && !few && h.rng.chance(1, 4) { Some(*h.rng.pick(&[59usize, 60, 60, 61, 62, 121, 122, 123]) % n) } else { None };
     if !kind.is_merge() {
-        for _ in 0..n {
+        for i in 0..n {
             let id = h.passive_fut();
+            if ready_at == Some(i) {
+                w.kids.borrow_mut()[id as usize].ready = true;
+            }
             h.push_id(id, How::Back);
         }
     }
     w.streak_limit.set(4096 * (w.groups_bound.get() + 1));
+    if ready_at.is_some() {
+        for _ in 0..6 {
+            let wk = h.last_waker;
+            let r = h.poll(wk);
+            if w.has_violation() || h.subj.is_none() {
+                return finish_result(h);
+            }
+            if r == Last::Pending && !w.task_invoked_since(wk, h.last_start) {
+                break;
+            }
+        }
+        if !w.has_violation() {
+            h.drain();
+        }
+        if !w.has_violation() {
+            h.finish(h.hash & 1 == 0, true);
+        }
+        return finish_result(h);
+    }
     // variant: a few children finish first (their retained wakers become stale) and the busy
     // ones poke such a stale waker on every poll, before or after waking themselves
     let mut stale: Vec<u32> = Vec::new();
